@@ -116,7 +116,9 @@ func (c *client) PushBlob(ctx context.Context, repo string, desc ociregistry.Des
 	})
 	// Note: we can't use ocirequest.Request here because that's
 	// specific to the ociserver implementation in this case.
-	req, err = http.NewRequestWithContext(ctx, "PUT", "", r)
+	// Note: wrapping the reader also stops net/http from deriving the
+	// content length from the reader's dynamic type.
+	req, err = http.NewRequestWithContext(ctx, "PUT", "", &sizeCheckReader{r: r, want: desc.Size})
 	if err != nil {
 		return ociregistry.Descriptor{}, err
 	}
@@ -132,6 +134,27 @@ func (c *client) PushBlob(ctx context.Context, repo string, desc ociregistry.Des
 	defer closeOnError(&_err, resp.Body)
 	resp.Body.Close()
 	return desc, nil
+}
+
+// sizeCheckReader checks that the content read from r
+// is exactly want bytes long. net/http only checks that when
+// the content length is non-zero and the body non-empty.
+type sizeCheckReader struct {
+	r    io.Reader
+	want int64
+	n    int64
+}
+
+func (r *sizeCheckReader) Read(buf []byte) (int, error) {
+	n, err := r.r.Read(buf)
+	r.n += int64(n)
+	if r.n > r.want {
+		return n, fmt.Errorf("content is larger than descriptor size %d: %w", r.want, ociregistry.ErrSizeInvalid)
+	}
+	if err == io.EOF && r.n < r.want {
+		return n, fmt.Errorf("content is smaller than descriptor size (%d/%d): %w", r.n, r.want, ociregistry.ErrSizeInvalid)
+	}
+	return n, err
 }
 
 // TODO is this a reasonable default? We have to
